@@ -111,10 +111,11 @@ func driveBaseMul(c *ctx) {
 			v = rep(secp256k1.NewGeneratorPoint(), big.NewInt(int64(9+idx)))
 			deepScalarBaseMultVartime(v, sc)
 			c.E("bm.Mult", "kind", "vartime", "s", h32(s), "out", ptRaw(v))
-		} else { // the variable-time generator multiply through its exported caller: u1*G + 0*G
+		}
+		if !deep || idx%3 == 1 || s.Sign() == 0 || s.BitLen() <= 8 { // the variable-time generator multiply through its exported caller: u1*G + 0*G
 			v = secp256k1.NewGeneratorPoint()
 			v.DoubleScalarMultBasepointVartime(sc, secp256k1.NewScalar(), secp256k1.NewGeneratorPoint())
-			c.E("bm.Mult", "kind", "vartime", "s", h32(s), "out", ptRaw(v))
+			c.E("bm.Mult", "kind", "vartime_dsm", "s", h32(s), "out", ptRaw(v))
 		}
 		if idx%4 == 0 && s.Sign() != 0 {
 			priv, err := secec.NewPrivateKey(be32(s)[:])
@@ -128,6 +129,14 @@ func driveBaseMul(c *ctx) {
 			pt := priv.PublicKey().Point()
 			pt.Negate(pt)
 			c.E("bm.Priv", "s", h32(s), "pub", hx(priv.PublicKey().Point().UncompressedBytes()), "cmp", hx(priv.PublicKey().Point().CompressedBytes()), "after_derive", true)
+			// a key built from a Scalar object the caller goes on using: the key pair still maps ITS scalar to scalar*G
+			sObj := scFrom(s)
+			if k2, err := secec.NewPrivateKeyFromScalar(sObj); err == nil {
+				sObj.Add(sObj, secp256k1.NewScalarFromUint64(1))
+				sObj.Zero()
+				c.E("bm.Priv", "s", h32(s), "pub", hx(k2.PublicKey().Bytes()), "cmp", hx(k2.PublicKey().CompressedBytes()), "after_derive", true,
+					"scalar", hx(k2.Scalar().Bytes()), "bytes", hx(k2.Bytes()))
+			}
 		}
 	}
 }
